@@ -160,4 +160,18 @@ def balancedGo : Nat → CTree Unit → Bool
 
 def balancedUpTo (n : Nat) : Bool := balancedGo n CTree.empty
 
+/-- the tree after `n` calls of `index_tree_append` -/
+def buildTree : Nat → CTree Unit
+  | 0 => CTree.empty
+  | n + 1 => (buildTree n).append ()
+
+def rootLeftSize {α : Type} : Tree α → Nat
+  | .nil => 0
+  | .node l _ _ => l.size
+
+/-- (n, height, size of the root's left subtree) — the shape facts the probe tabulates from the real code -/
+def treeShape (n : Nat) : Nat × Nat × Nat :=
+  let t := buildTree n
+  (n, t.root.height, rootLeftSize t.root)
+
 end XzVerif.Index
